@@ -35,11 +35,14 @@ ASSUMPTIONS = [
 SHARDS = {"quick": 16, "thorough": 16}
 TIMEOUT = {"quick": 900, "thorough": 7200}
 MIN_CASES = {"quick": 4000, "thorough": 80000}
-REQUIRED_COUNTERS = ["events_sent", "listener_logs_checked", "reconnects_checked", "resubscriptions_verified", "raising_listener_isolated", "polling_fallback_histories", "connection_back_events", "reads_with_complete_and_partial_frame"]
+REQUIRED_COUNTERS = ["events_sent", "listener_logs_checked", "reconnects_checked", "resubscriptions_verified", "raising_listener_isolated", "polling_fallback_histories", "connection_back_events", "reads_with_complete_and_partial_frame", "subscribe_answered_207"]
 
-ALPHABET = "abcuvlxrDSZOetpfmnjq"
+ALPHABET = "abcwuvlxrDSZOetpfmnjq"
 SUB_A = [(1, 9), (1, 10)]
 SUB_B = [(2, 9), (1, 9), (3, 13)]
+# includes a characteristic the accessory does not have: the request is answered 207 with a per-item status, the ids stay
+# the caller's subscriptions and are asked for again after every reconnect
+SUB_W = [(1, 10), (1, 99), (2, 9)]
 # interleaved accessory ids, as a caller may well pass them
 SUB_C = [(1, 9), (2, 9), (1, 10), (3, 13), (2, 10), (1, 13), (3, 9), (2, 13)]
 
@@ -135,6 +138,7 @@ class History:
             if conn is not None:
                 conn.close()
             await vloop.settle()
+            self.expected_subs = getattr(self, "expected_subs", set()) | set(SUB_A)
             try:
                 await asyncio.wait_for(p.subscribe(SUB_A), 60)
             except Exception:  # noqa: BLE001
@@ -147,9 +151,15 @@ class History:
                 if w.connection.is_connected:
                     break
             self.ctx.count("outages_with_subscribe")
-        if a in "abcuv":
+        if a in "abcwuv":
             from aiohomekit.exceptions import AccessoryDisconnectedError
 
+            # lower bound of what the pairing must remember: everything subscribed and not (attempted to be) unsubscribed since
+            self.expected_subs = getattr(self, "expected_subs", set())
+            if a in "abcw":
+                self.expected_subs |= set({"a": SUB_A, "b": SUB_B, "c": SUB_C, "w": SUB_W}[a])
+            else:
+                self.expected_subs -= set([(1, 9)] if a == "u" else [(2, 9), (1, 10)])
             try:
                 if a == "a":
                     await asyncio.wait_for(p.subscribe(SUB_A), 60)
@@ -157,6 +167,9 @@ class History:
                     await asyncio.wait_for(p.subscribe(SUB_C), 60)
                 elif a == "b":
                     await asyncio.wait_for(p.subscribe(SUB_B), 60)
+                elif a == "w":
+                    await asyncio.wait_for(p.subscribe(SUB_W), 60)
+                    self.ctx.count("subscribe_answered_207")
                 elif a == "u":
                     await asyncio.wait_for(p.unsubscribe([(1, 9)]), 60)
                 else:
@@ -258,7 +271,7 @@ class History:
                 self.sent.append((self.step, exp))
         await vloop.settle()
         # a lost connection is re-established by the pairing itself; give it (virtual) time
-        if a in "DSZ" or (a in "abcuv" and self.current_conn() is None):
+        if a in "DSZ" or (a in "abcwuv" and self.current_conn() is None):
             for _ in range(6):
                 if w.connection.is_connected:
                     break
@@ -283,11 +296,14 @@ class History:
                                f"after {a!r}: supports_subscribe is off although no subscription request was ever cut off by a disconnection")
             return
         want = set(w.pairing.subscriptions)
-        if not want <= conn.subscriptions:
+        if not want <= conn.asked:
             self.violation(
                 "subscriptions-not-registered-on-connection",
-                f"after {a!r}: caller is subscribed to {sorted(want)} but connection {conn.index} was asked for {sorted(conn.subscriptions)}",
+                f"after {a!r}: caller is subscribed to {sorted(want)} but connection {conn.index} was asked for {sorted(conn.asked)}",
             )
+            return
+        if not getattr(self, "expected_subs", set()) <= want:
+            self.violation("subscription-forgotten", f"after {a!r}: the caller subscribed to {sorted(getattr(self, 'expected_subs', set()))} (and did not unsubscribe) but the pairing only remembers {sorted(want)}")
             return
         if want and conn.index > 0:
             ctx.count("resubscriptions_verified")
